@@ -65,8 +65,8 @@ def async_(b): return {"e": "async", "b": b}
 def await_(a): return {"e": "await", "a": a}
 
 
-def prog(pid, body, vars_=(), tags=(), funcs=()):
-    return {"id": pid, "body": body, "vars": [{"n": n, "v": v} for n, v in vars_], "tags": list(tags), "funcs": list(funcs)}
+def prog(pid, body, vars_=(), tags=(), funcs=(), consts=()):
+    return {"id": pid, "body": body, "vars": [{"n": n, "v": v} for n, v in vars_], "tags": list(tags), "funcs": list(funcs), "consts": [{"n": n, "v": v} for n, v in consts]}
 
 
 def operator_table():
@@ -462,7 +462,7 @@ class Gen:
 
 def all_programs(tier, seed):
     rnd = random.Random(seed)
-    progs = operator_table() + precedence_table() + control_table() + optimizer_table() + match_table() + string_table() + status_table() + function_table() + special_numbers_table() + builtin_table()
+    progs = operator_table() + precedence_table() + control_table() + optimizer_table() + match_table() + string_table() + status_table() + function_table() + special_numbers_table() + builtin_table() + module_table()
     g = Gen(rnd)
     for _ in range(600 if tier == "quick" else 8000):
         progs.append(g.program())
@@ -984,6 +984,42 @@ def builtin_table():
         R([decl("t", I(0)), for_(None, nm, arr([I(1), I(2)]), [set_("t", bin_("+", var("t"), var(nm)))]), ret(var("t"))], ["loop-variable"])
         R([decl(nm, I(5)), decl(nm, I(6)), ret(var(nm))], ["declared-twice"])
         R([decl(nm, var("q")), ret(var(nm))], ["from-input"], [("q", vint(8))])
+    return out
+
+
+# ---- module constants and the module's functions: shared by every request, changed by none ------------------------
+def module_table():
+    out = []
+    I = lambda n: lit(vint(n))
+    S = lambda x: lit(vstr(x))
+    add = lambda a, b: bin_("+", a, b)
+    C = (("LIMIT", vint(10)), ("NAMES", varr([vstr("a"), vstr("b")])), ("CONF", vobj([("a", vint(1))])))
+    over = func("over", ["n"], [ret(bin_(">", var("n"), var("LIMIT")))])
+    P = lambda body, tags, vars_=(), funcs=(over,), consts=C: out.append(prog("", body, vars_, ["module"] + tags, list(funcs), consts))
+    P([ret(arr([var("LIMIT"), var("NAMES"), field(var("CONF"), "a")]))], ["constants-read"])
+    P([ret(arr([fcall("over", I(11)), fcall("over", I(3))]))], ["constant-read-in-function"])
+    P([decl("LIMIT", add(var("LIMIT"), I(1))), ret(var("LIMIT"))], ["constant-declared-again"])
+    P([set_("LIMIT", I(99)), ret(var("LIMIT"))], ["constant-assigned"])
+    P([if_(lit(vbool(True)), [decl("LIMIT", I(5))]), ret(var("LIMIT"))], ["constant-declared-again", "in-a-block"])
+    P([decl("t", I(0)), for_(None, "v", var("NAMES"), [set_("LIMIT", I(1))]), ret(var("t"))], ["constant-assigned", "in-a-loop"])
+    P([ret(fcall("bump"))], ["constant-declared-again", "in-a-function"], funcs=(func("bump", [], [decl("LIMIT", I(1)), ret(var("LIMIT"))]),))
+    P([ret(fcall("bump"))], ["constant-assigned", "in-a-function"], funcs=(func("bump", [], [set_("LIMIT", I(1)), ret(var("LIMIT"))]),))
+    P([decl("xs", add(var("NAMES"), arr([S("c")]))), ret(arr([var("xs"), var("NAMES")]))], ["constant-array-extended-into-a-variable"])
+    P([decl("xs", callh("append", var("NAMES"), S("c"))), ret(arr([var("xs"), var("NAMES")]))], ["constant-array-appended-into-a-variable"])
+    P([decl("c", callh("set", var("CONF"), S("x"), I(1))), ret(arr([var("c"), var("CONF")]))], ["constant-object", "set-answers-a-new-object"])
+    P([decl("c", callh("remove", var("CONF"), S("a"))), ret(arr([var("c"), var("CONF")]))], ["constant-object", "remove-answers-a-new-object"])
+    P([ret(arr([fcall("grow"), var("CONF")]))], ["constant-object", "set-in-a-function"], funcs=(func("grow", [], [ret(callh("set", var("CONF"), S("y"), I(2)))]),))
+    P([ret(fcall("shadow", I(3)))], ["parameter-named-like-a-constant"], funcs=(func("shadow", ["LIMIT"], [set_("LIMIT", add(var("LIMIT"), I(1))), ret(var("LIMIT"))]),))
+    P([decl("t", I(0)), for_(None, "LIMIT", arr([I(1), I(2)]), [set_("t", add(var("t"), var("LIMIT")))]), ret(arr([var("t"), var("LIMIT")]))], ["loop-variable-named-like-a-constant"])
+    P([decl("f", async_([ret(add(var("LIMIT"), I(1)))])), ret(await_(var("f")))], ["constant-read-in-async-block"])
+    P([decl("f", async_([decl("LIMIT", I(1)), ret(var("LIMIT"))])), ret(await_(var("f")))], ["constant-declared-again", "in-async-block"])
+    # the module's functions
+    P([decl("over", I(5)), ret(var("over"))], ["variable-named-like-a-function"])
+    P([decl("over", I(5)), ret(fcall("over", I(50)))], ["variable-named-like-a-function", "then-called"])
+    P([if_(lit(vbool(True)), [decl("over", I(5)), set_("over", add(var("over"), I(1)))]), ret(fcall("over", I(50)))], ["variable-named-like-a-function", "in-a-block-then-called-outside"])
+    P([set_("over", I(6)), ret(I(1))], ["function-assigned"])
+    P([ret(fcall("g"))], ["function-assigned", "in-a-function"], funcs=(over, func("g", [], [set_("over", I(6)), ret(I(1))])))
+    P([ret(fcall("g"))], ["variable-named-like-a-function", "in-a-function"], funcs=(over, func("g", [], [decl("over", I(6)), ret(var("over"))])))
     return out
 
 
